@@ -74,6 +74,25 @@ def run_op(op, ctx=None):
     from cm_colors import Color, ColorPair, make_readable_bulk
 
     kind = op["op"]
+    if op.get("thread"):
+        # the call is issued from a thread that is not the main thread (a worker, an executor job, a web handler)
+        import threading
+
+        box = []
+        sub = {k: v for k, v in op.items() if k != "thread"}
+
+        def _t():
+            try:
+                box.append(("ok", run_op(sub, ctx)))
+            except BaseException as e:  # noqa  (HarnessError included: re-raised in the caller)
+                box.append(("err", e))
+
+        th = threading.Thread(target=_t, name="caller-thread")
+        th.start()
+        th.join()
+        if box[0][0] == "err":
+            raise box[0][1]
+        return box[0][1]
     out = {}
     try:
         if kind == "color":
@@ -98,6 +117,17 @@ def run_op(op, ctx=None):
                 pairs = iter(pairs)  # a one-shot iterator (zip(texts, bgs), map(...), a generator)
             elif cont == "gen":
                 pairs = (x for x in list(pairs))
+            elif cont == "gen-raise":
+                # the caller's own data source fails part-way (a database cursor, a file being parsed)
+                def _src(items=list(pairs), k=op.get("raise_at", 1)):
+                    for j, x in enumerate(items):
+                        if j == k:
+                            raise RuntimeError("data source failed")
+                        yield x
+                    if k >= len(items):
+                        raise RuntimeError("data source failed")
+
+                pairs = _src()
             r = make_readable_bulk(pairs, **_kw(op, (("mode", "mode"), ("vr", "very_readable"), ("save", "save_report"))))
             out["ret"] = enc(r)
             if ctx is not None and op.get("hold"):
